@@ -3,18 +3,18 @@
    permutation of every subset of the loadable species as loading order (optionally with a species
    loaded twice) *)
 EXTENDS Recognise
-CONSTANTS MaxMols, Repeats
-Loadable == {"A", "B", "C", "D"}
-AllSpecies == Loadable \cup {"W"}
+CONSTANTS MaxMols, Repeats, WithClone, MaxOrder
+Loadable == IF WithClone THEN {"A", "B", "C", "D", "X"} ELSE {"A", "B", "C", "D"}      \* X: a clone of A (same residue name and size, other atom names); never in a file
+AllSpecies == (Loadable \ {"X"}) \cup {"W"}
 (* A single residue; B two different residues; C the same residue kind twice; D a second single-residue
    species; kinds are residue signatures (resname, atom count) *)
-Pattern == [s \in AllSpecies |-> CASE s = "A" -> <<"a">> [] s = "B" -> <<"b", "c">> [] s = "C" -> <<"d", "d">>
+Pattern == [s \in AllSpecies \cup {"X"} |-> CASE s \in {"A", "X"} -> <<"a">> [] s = "B" -> <<"b", "c">> [] s = "C" -> <<"d", "d">>
                                    [] s = "D" -> <<"e">> [] OTHER -> <<"w">>]
 Injective(f) == \A i, j \in DOMAIN f : f[i] = f[j] => i = j
-Orders == {o \in UNION {[1..k -> Loadable] : k \in 0..Cardinality(Loadable)} : Injective(o)}
+Orders == {o \in UNION {[1..k -> Loadable] : k \in 0..MaxOrder} : Injective(o)}
           \cup (IF Repeats THEN {<<s, t, s>> : s \in Loadable, t \in Loadable} ELSE {})
 MCInit == \E m \in UNION {[1..k -> AllSpecies] : k \in 1..MaxMols}, o \in Orders :
-             RInit([pattern |-> Pattern, mols |-> m, order |-> o])
+             RInit([pattern |-> Pattern, mols |-> m, order |-> o, clones |-> {"X"}])
 MCNext == AddTop \/ Finish
 MCSpec == MCInit /\ [][MCNext]_rvars
 =============================================================================
